@@ -23,8 +23,10 @@ CHECKS = [
          text="Partial (cache-key canonicalisation): every (operator class, parameter, period T) that the real hash treats as "
               "equal (found at run time by probing the real __hash__) is proved to satisfy M_w(theta+T) == M_w(theta) for all "
               "theta, bare and under ctrl/adjoint/pow/prod wrappers, so equal cache keys imply equal matrices and therefore equal "
-              "results. A sat model is replayed through qp.execute(cache=True) vs cache=False on default.qubit.",
-         note=PROOF_NOTE + " Outside: structural hash separation, LRU eviction, the round(.,10) slab, fractional powers.",
+              "results. A sat model is replayed through qp.execute(cache=True) vs cache=False on default.qubit. Structural part: in a family of 42 structurally "
+              "different circuits (operator class, wires, matrix data and its conjugate / transpose, wrappers, observable term multiplicities and order, measurement kind "
+              "and wire order) every pair with equal tape.hash must give equal default.qubit results (structural comparison).",
+         note=PROOF_NOTE + " Outside: trainable indices / shots in the key, LRU eviction, the round(.,10) slab, fractional powers, str() elision of arrays with more than 1000 elements.",
          technique="symbolic execution of operator matrices under wrappers at theta and theta+T; z3 QF_NRA periodicity proofs"),
     dict(property_id="C07", category="proof", engine=E1,
          text="Every member (read at run time) of the seven attribute sets in ops/qubit/attributes.py that has a closed-form "
@@ -91,8 +93,10 @@ CHECKS += [
               "ZERO only if the wire held |0> and restoration was promised, and raises AllocationError exactly when nothing can be provided - "
               "proved by z3 on every feasible path, so it covers allocation histories of any length. Plus bounded histories (<=4 opcodes + gate; "
               "thorough <=6) through the real resolve_dynamic_wires with symbolic register labels / static label / min_int against an independent "
-              "lifetime model (no aliasing of live wires, never on the static wire, |0> when requested).",
-         note=E5_NOTE + "Stub: measure(w, reset=True) replaced by a marker op. restored=True is honoured as the user's promise. Outside: device preprocessing (device_resolve_dynamic_wires), equality of simulation results with fresh wires.",
+              "lifetime model (no aliasing of live wires, never on the static wire, |0> when requested); the same histories through "
+              "devices.preprocess.device_resolve_dynamic_wires without device wires (1-3 static integer wires with symbolic labels in arbitrary tape order) "
+              "and with device wire lists mixing free and static symbolic labels.",
+         note=E5_NOTE + "Stub: measure(w, reset=True) replaced by a marker op. restored=True is honoured as the user's promise. Outside: equality of simulation results with fresh wires, magic-state allocation.",
          technique="lifted execution of the real wire manager/transform on z3 integers; inductive-step and bounded-history validity queries"),
     dict(property_id="C47", category="proof", engine=E5,
          text="The real estimator runs on SYMBOLIC repetition counts and budgets: estimate(Resources{A: n, B: m}) gate counts are proved equal to "
@@ -471,6 +475,21 @@ CHECKS += [
          note=PROOF_NOTE + " Category 'other' (partial): threshold / displace / flip / closest-PSD / depolarizing-mitigation post-processing are defined through eigendecompositions and "
               "convex optimisation - positive semidefiniteness of their output is not a polynomial identity - and are outside; 4-point alignments stay inconclusive (z3 timeout).",
          technique="lifted execution of the kernel utilities on an uninterpreted symbolic kernel; z3 QF_NRA equality proofs"),
+]
+
+CHECKS += [
+    dict(property_id="C74", category="proof", engine=E1,
+         text="(A) 15 circuits over the MBQC gate set (H, S, RZ, RotXZX, CNOT, physical Paulis; single gates, sequences, wires appearing in non-sorted order, sequences long "
+              "enough to recycle released qubits) through the REAL convert_to_mbqc_formalism (diagonalize_mcms=True; False followed by the REAL diagonalize_mcms transform). "
+              "The resulting dynamic circuit runs in the active-set interpreter vf.mbqc with EVERY measurement outcome a solver bit (4 per single-qubit gate, 13 per CNOT), an "
+              "arbitrary symbolic input state and symbolic angles; z3 proves for all outcomes, inputs and angles that the output wires carry U|psi> up to a scalar, every other "
+              "wire is back in |0>, and every outcome pattern has weight 2^-k. (B) The online corrections are removed and replaced by those of the REAL offline Pauli tracker "
+              "(_parse_mid_measurements, _get_xz_record, commute_clifford_op run on the symbolic outcome bits): the same proportionality is proved, i.e. the recorded frame is "
+              "exactly the byproduct X^x Z^z of the uncorrected run; commute_clifford_op is compared with matrix conjugation for every Pauli frame of H, S, CNOT.",
+         note=PROOF_NOTE + " Quick tier: circuits without CNOT (seconds to 2 minutes); the CNOT pattern (13 symbolic outcomes, 8192 branches proved at once, ~5 minutes per instance) and the heaviest "
+              "sequences run in the thorough tier. For the two wire-recycling sequences the first 4 outcomes are symbolic and the later ones all 0 / all 1. Outside: finite-shot "
+              "sampling, non-integer wire labels in the tracker, more than 2 logical wires.",
+         technique="symbolic-outcome active-set interpretation of the real MBQC conversion and Pauli tracker on z3 polynomial terms (multilinear normal form in the outcome bits); z3 QF_NRA validity queries"),
 ]
 
 _NOT_BUILT = "claimed in DESIGN.md §4 but its solver-based check is not built yet in this tree"
